@@ -126,6 +126,11 @@ func (t *irGen) flipFlop(depth int, mid func()) {
 
 func (t *irGen) observe1(ws []string, full bool) {
 	l := t.l
+	if full {
+		// the history queries read transactions back from the node at the wallet's height: they are only
+		// meaningful (and only specified) once the follower has been told about the node's chain
+		t.drain1()
+	}
 	t.op("q-synced", "synced")
 	for _, w := range ws {
 		t.op("q-bal", "bal %s 1", w)
@@ -145,6 +150,9 @@ func (t *irGen) observe1(ws []string, full bool) {
 
 func (t *irGen) observe2(ws []string, full bool) {
 	l := t.l
+	if full {
+		t.drain2()
+	}
 	t.op("i2-q-synced", "i2 synced")
 	for _, w := range ws {
 		t.op("i2-q-bal", "i2 bal %s 1", w)
